@@ -8,6 +8,7 @@ import ShVerif.Proofs.L4PrintGen
 import ShVerif.Proofs.L4Single
 import ShVerif.Proofs.L4ParseWF
 import ShVerif.Proofs.L4Fix
+import ShVerif.Proofs.L4Walk
 import ShVerif.Props.C01
 namespace ShVerif.Props.C02
 open ShVerif ShVerif.L4
@@ -275,29 +276,39 @@ theorem idempotent_word (o : Opts) (w : Word) (hw : w.wf = true) (b : Bytes) (hp
   show nwordBytes (normParts parts) = nwordBytes w.norm
   rw [h2]
 
-/-! ## Without SingleLine: the printer is a fixpoint on its own layout
+/-! ## Without SingleLine: programs without subshells and blocks
 
   Outside SingleLine the printed layout depends on the line numbers in the tree.  Call `f'` a
-  *transcript* of printing `f` (`trFileB o f f'`, executable, `Model/L4Transcript.lean`) when `f'`
-  has the shape of `f` and carries, as line numbers, the lines on which `printFile o f` actually
-  writes the corresponding tokens: every word starts on the line where it was written and ends
-  that line plus the newlines inside it, a statement starts where its first token was written, a
-  `;`/`&` sits where it was written, an operator not after its right operand.  Programs without
-  subshells and blocks.
+  *transcript* of printing `f` (`TrFile o f f'`; `trFileB o f f'` is the executable check,
+  `Model/L4Transcript.lean`) when `f'` has the shape of `f` and carries, as line numbers, the
+  lines on which `printFile o f` actually writes the corresponding tokens: every word starts on
+  the line where it was written and ends that line plus the newlines inside it, a statement
+  starts where its first token was written, a `;`/`&` sits where it was written, an operator not
+  after its right operand.
 
-  `reprint_fixpoint`: printing a transcript writes the same bytes again — for *every* option set
-  without SingleLine (Minify, BinaryNextLine, Indent n, …), every line-number assignment of `f`
-  (no `posMono`), continuation lines, blank lines and multi-line `&&`/`||`/`|` lists included.
-  The proof (`Proofs/L4Fix.lean`) runs the two printer passes side by side: same flags and
-  levels, same bytes, and the second pass's line counter *is* the current output line.
+  1. `reprint_fixpoint` (`Proofs/L4Fix.lean`): printing a transcript writes the same bytes again,
+     for *every* option set without SingleLine (Minify, BinaryNextLine, Indent n, …) and every
+     line-number assignment of `f` — continuation lines, blank lines and multi-line `&&`/`||`/`|`
+     lists included.  The two printer passes are run side by side: same flags and levels, same
+     bytes, and the second pass's line counter *is* the current output line.
+  2. `reparse_transcript` (`Proofs/L4Walk.lean`): the parser reads the printed text back as a
+     transcript.  Ingredients: where the tokens of printed text sit (`lexAll_pieces_lines`: the
+     k-th token is on line 1 + the newlines written before the k-th word/operator piece), where a
+     word ends (`lexAll_ok3`), the tree is the token stream (`parse_tokens`), statement positions
+     are first-token positions (`parse_pk`), `parse_WF`, and C01's round trip on norms.
+  3. Hence `idempotent_linear`: the statement the property asks for, from source text, with no
+     hypothesis on any tree, for programs without subshells and blocks (`Stmts.lin`): simple
+     commands with literal and single-quoted words, `!`, `&`, `;`, and `&&`/`||`/`|` lists of any
+     nesting and any layout.
 
-  What parsing adds is `transcript_statement`: the parser reads the printed text back as a
-  transcript.  It is stated, validated by execution (driver op `spectr`: 333 of 333 linear
-  non-SingleLine programs of one harness run, see C02.notes.md) and not proved: the proved lexer
-  and parser lemmas (`parse_WF`, `parse_flatten`: the tree is the lexer's token stream, each
-  token at its own position) describe the positions in terms of the *source text*, and the missing
-  link is the lexer lemma "the k-th token of `render pieces` sits on line 1 + newlines before it"
-  threaded through the round-trip proof, which so far forgets positions. -/
+  What blocks subshells and blocks: step 1 is false there as stated — the printer reads `( … )`
+  positions not only through "is this token after the current line": `lp.line != s.pos.line`,
+  `closing.line > p.line ∧ endLine < closing.line` and `openLine == closeLine` compare positions of
+  the *first* tree with each other, and the transcript answers them differently exactly in the two
+  recorded defects (`idempotent_fails`: `( (s)` NEWLINE `)`, POSIX `((a;b))`).  A proof has to
+  carry, through `R`, which of these comparisons agree, i.e. the side condition `noParenParen` of
+  `idempotent_partial_statement`; steps 2's lexer and parser lemmas already cover all of F0 except
+  `parse_pk` and the walk, which do not enter `( )` and `{ }`. -/
 
 /-- **The printer is a fixpoint on its own layout.** -/
 theorem reprint_fixpoint (o : Opts) (f f' : File) (hsl : o.singleLine = false) (t : trFileB o f f' = true) :
@@ -330,26 +341,78 @@ example :
      | _ => false) = true := by
   decide +kernel
 
+/-- **The parser reads printed text back as a transcript** (programs without subshells and
+    blocks, every option set without SingleLine, every variant). -/
+theorem reparse_transcript (o : Opts) (l : Lang) (src : Bytes) (f f' : File) (b : Bytes) (hsrc : parse l src = .ok f)
+    (hlin : f.stmts.lin = true) (hne : f.stmts ≠ .nil) (hsl : o.singleLine = false)
+    (hp : printFile o f = .ok b) (hq : parse l b = .ok f') : TrFile o f f' :=
+  transcript o l src f f' b hsrc hlin hne hsl hp hq
+
+theorem norm_nil_stmts {f : File} (h : f.norm.beq NStmts.nil = true) : f.stmts = .nil := by
+  obtain ⟨ss⟩ := f
+  cases ss with
+  | nil => rfl
+  | cons s r => simp [File.norm, Stmts.norm, NStmts.beq] at h
+
+/-- the second pass succeeds and writes the same bytes -/
+theorem reprint_linear (o : Opts) (l : Lang) (src : Bytes) (f f' : File) (b : Bytes) (hsrc : parse l src = .ok f)
+    (hlin : f.stmts.lin = true) (hsl : o.singleLine = false)
+    (hp : printFile o f = .ok b) (hq : parse l b = .ok f') : printFile o f' = .ok b := by
+  by_cases hne : f.stmts = .nil
+  · -- the empty file prints as one newline, which parses to the empty file
+    obtain ⟨ss⟩ := f
+    simp only at hne
+    subst hne
+    have hr : refuse o = false := by
+      cases h : refuse o with
+      | false => rfl
+      | true => unfold printFile at hp; simp [h] at hp
+    rw [C01.printFile_nil o hr] at hp
+    simp only [Except.ok.injEq] at hp
+    subst hp
+    have hn := C01.parse_newline l
+    rw [hq] at hn
+    have : f' = ⟨.nil⟩ := by
+      have := norm_nil_stmts hn
+      obtain ⟨ss'⟩ := f'
+      simp only at this
+      rw [this]
+    rw [this]
+    exact C01.printFile_nil o hr
+  · exact L4.idempotent_linear o l src f f' b hsrc hlin hne hsl hp hq
+
+/-- **Idempotence without SingleLine on programs without subshells and blocks** — the
+    property's own statement, from source text: every option set without SingleLine (KeepPadding is
+    outside the model), every variant, no hypothesis on any tree. -/
+theorem idempotent_linear (o : Opts) (l : Lang) (src : Bytes) (f f' : File) (b b' : Bytes)
+    (hsrc : parse l src = .ok f) (hlin : f.stmts.lin = true) (hsl : o.singleLine = false)
+    (hp : printFile o f = .ok b) (hq : parse l b = .ok f') (hp' : printFile o f' = .ok b') : b' = b := by
+  rw [reprint_linear o l src f f' b hsrc hlin hsl hp hq] at hp'
+  simp only [Except.ok.injEq] at hp'
+  exact hp'.symm
+
+/-- the hypotheses are satisfiable, and the layout is not trivial: a continuation line, a blank
+    line, `&&` broken after the operator, `&`, a quoted newline, `!` -/
+example : ∃ f, parse .bash "a \\\n  b &\n\n\nc 'x\ny' &&\n d | e\n! f".toUTF8.toList = .ok f ∧ f.stmts.lin = true := by
+  cases h : parse .bash "a \\\n  b &\n\n\nc 'x\ny' &&\n d | e\n! f".toUTF8.toList with
+  | error e =>
+    have : (match parse .bash "a \\\n  b &\n\n\nc 'x\ny' &&\n d | e\n! f".toUTF8.toList with | .ok _ => true | _ => false) = true := by
+      decide +kernel
+    rw [h] at this
+    cases this
+  | ok f =>
+    refine ⟨f, rfl, ?_⟩
+    have : (match parse .bash "a \\\n  b &\n\n\nc 'x\ny' &&\n d | e\n! f".toUTF8.toList with | .ok f => f.stmts.lin | _ => false) = true := by
+      decide +kernel
+    rw [h] at this
+    exact this
+
 /-! ## Stated, not proved
 
-  Idempotence without SingleLine on the part of F0 that avoids the two recorded shapes.  A
-  definition, not a theorem (the layout then depends on the positions the parser assigns, which
-  the proved parser lemmas do not describe); checked by execution (`specidem` ops: model and Go
-  code side by side) on every run. -/
-
-/-- the parser reads printed text back as a transcript (programs without subshells and blocks) -/
-def transcript_statement : Prop :=
-  ∀ (o : Opts) (l : Lang) (src : Bytes) (f f' : File) (b : Bytes), parse l src = .ok f → f.stmts.lin = true →
-    o.singleLine = false → printFile o f = .ok b → parse l b = .ok f' → trFileB o f f' = true
-
-/-- idempotence without SingleLine on programs without subshells and blocks -/
-def idempotent_linear_statement : Prop :=
-  ∀ (o : Opts) (l : Lang) (src : Bytes) (f f' : File) (b : Bytes), parse l src = .ok f → f.stmts.lin = true →
-    o.singleLine = false → printFile o f = .ok b → parse l b = .ok f' → printFile o f' = .ok b
-
-/-- … which is all that is missing: -/
-theorem idempotent_linear_of_transcript (h : transcript_statement) : idempotent_linear_statement :=
-  fun o l src f f' b hs hl hsl hp hq => idempotent_of_transcript o l f f' b hsl hp hq (h o l src f f' b hs hl hsl hp hq)
+  Idempotence without SingleLine on the part of F0 *with* subshells and blocks that avoids the two
+  recorded shapes (without subshells and blocks it is `idempotent_linear`).  A definition, not a
+  theorem: the printer is not a fixpoint on transcripts there without a side condition (see
+  above); checked by execution (`specidem` ops: model and Go code side by side) on every run. -/
 
 def idempotent_partial_statement : Prop :=
   ∀ (o : Opts) (l : Lang) (f f' : File) (b : Bytes), f.wf = true → posMono f → f.stmts.noParenParen = true →
